@@ -58,3 +58,387 @@ def tables_tie(ctx, names):
     else:
         ctx.violation({"kind": "theorem-no-longer-checks", "theorem": "extracted literal data = Model/Tables.v (%s)" % ", ".join(done),
                        "extracted": defs, "log": log2[-1200:]}, found_input=False)
+
+
+# ======================================================================================= functions
+# fn_tie: pure functions of /repo's CURRENT source are translated to Gallina by harness/extract (mode
+# `fn`, tools/notes/Translator.md) on every run and Coq proves, for ALL inputs, that the translated
+# function equals the hand-written model function (or has the characterisation the property relies on).
+#   translator says no (status 3)          -> note, coverage "untranslatable: ...", behavioural tie decides
+#   proof goes through                     -> obligations discharged, coverage "proved"
+#   proof fails, grid finds a differing input -> VIOLATION with that input (the translated function IS the
+#                                             code); replayed on the real code where it is exported
+#   proof fails, no differing input        -> note, coverage "unproved-no-diff", behavioural tie decides
+FN_HEADER = """From Mage Require Import Base.Strs Base.GoLib Proof.GoLib_facts Run.eval_GoLib.
+"""
+
+_PARSE_NAMES = ("Function.TargetName,Function.ID,Functions.Less,Imports.Less,"
+                "+Function.PkgAlias,+Function.Receiver,+Function.Name,+Function.ImportPath,+Import.UniqueName")
+
+_TO_DUPES = """Definition to_dupes (f : x_Function) : Dupes.func :=
+  {| Dupes.f_alias := x_Function_PkgAlias f; Dupes.f_path := x_Function_ImportPath f;
+     Dupes.f_recv := x_Function_Receiver f; Dupes.f_name := x_Function_Name f |}.
+"""
+_TO_GEN = """Definition to_gen (f : x_Function) : Gen.func :=
+  {| Gen.fn_alias := x_Function_PkgAlias f; Gen.fn_pkg := ""; Gen.fn_path := x_Function_ImportPath f;
+     Gen.fn_recv := x_Function_Receiver f; Gen.fn_name := x_Function_Name f; Gen.fn_body := "" |}.
+Definition to_gen_import (m : x_Import) : Gen.import :=
+  {| Gen.i_alias := ""; Gen.i_name := ""; Gen.i_uname := x_Import_UniqueName m; Gen.i_path := ""; Gen.i_funcs := [] |}.
+"""
+_TO_ITAG = """Definition to_itag (f : x_Function) : ImportTag.func :=
+  {| ImportTag.f_alias := x_Function_PkgAlias f; ImportTag.f_path := x_Function_ImportPath f;
+     ImportTag.f_recv := x_Function_Receiver f; ImportTag.f_name := x_Function_Name f |}.
+"""
+_FGRID = 'Definition grid := words [""; "a"; "B"] x_Function_arity.\n'
+_LESS_GEN_PROOF = """Theorem x_TargetName_Gen : forall f, x_Function_TargetName f = Gen.target_name (to_gen f).
+Proof. intros f. unfold x_Function_TargetName, Gen.target_name, to_gen, strings_Join, Gen.nonempty. go_record f. go_auto. Qed.
+"""
+
+# name: file, names given to the translator, Go functions whose text goes into a replay, Coq requires,
+#       definitions shared by proof and search, the theorems (name list must match the text), the grid search
+#       (must define D : the first differing inputs as (arguments, translated result, model result), N : grid size),
+#       model term (for the evidence), replay op of harness/purefn (None: the function is not exported)
+FN_ITEMS = {
+    "joinArgs": {
+        "file": "sh/cmd.go", "names": "joinArgs", "src": ["joinArgs"],
+        "model": "Model/Slices.joinArgs: a fresh array holding contents a ++ contents b",
+        "requires": "From Mage Require Model.Slices Proof.Slices_facts.\n", "defs": "",
+        "theorems": ["x_joinArgs_value", "x_joinArgs_model"],
+        "agree": """Theorem x_joinArgs_value : forall a b, x_joinArgs a b = (a ++ b)%list.
+Proof. intros; unfold x_joinArgs; try go_loops; go_norm; try reflexivity. Qed.
+Import Slices Slices_facts.
+(* the heap model's joinArgs (Proof/Slices_facts.wp_joinArgs) builds exactly the translated function's value *)
+Theorem x_joinArgs_model : forall sh own a b (Q : pheap -> slice -> Prop),
+  s_id a < length sh -> s_id b < length sh ->
+  (forall o, length sh <= o -> plookup own o = None ->
+     Q ((o, x_joinArgs (contents sh a) (contents sh b)) :: own)
+       {| s_id := o; s_off := 0; s_len := s_len a + s_len b; s_cap := s_len a + s_len b |}) ->
+  wp sh (Slices.joinArgs a b) own Q.
+Proof. intros sh own a b Q Ha Hb H. apply wp_joinArgs; auto; intros o Ho Hn; rewrite <- x_joinArgs_value; auto. Qed.
+""",
+        "search": """Definition pool : list (list string) := words_upto ["x"; "y"; "z"] 2.
+Definition grid := pairs pool pool.
+Definition D := Eval vm_compute in firstn 3 (diffs (list_eqb String.eqb) (fun ab => [fst ab; snd ab]) (fun r => r)
+  (fun ab => x_joinArgs (fst ab) (snd ab)) (fun ab => (fst ab ++ snd ab)%list) grid).
+""",
+        "args": ["a", "b"], "replay": "joinArgs"},
+    "TargetName": {
+        "file": "parse/parse.go", "names": _PARSE_NAMES, "src": ["Function.TargetName", "Function.ID"],
+        "model": "Model/Dupes.target_name, Model/Dupes.fid (C07/C04; Bridge_C07_C04 feeds them to Model/Dispatch)",
+        "requires": "From Mage Require Model.Dupes.\n", "defs": _TO_DUPES,
+        "theorems": ["x_TargetName_Dupes", "x_ID_Dupes"],
+        "agree": """Theorem x_TargetName_Dupes : forall f, x_Function_TargetName f = Dupes.target_name (to_dupes f).
+Proof. intros f. unfold x_Function_TargetName, Dupes.target_name, to_dupes, strings_Join, Dupes.is_empty. go_record f. go_auto. Qed.
+Theorem x_ID_Dupes : forall f, x_Function_ID f = Dupes.fid (to_dupes f).
+Proof. intros f. unfold x_Function_ID, Dupes.fid, to_dupes, Dupes.is_empty. go_record f. go_auto. Qed.
+""",
+        "search": _FGRID + """Definition D1 := diffs String.eqb (fun ss => [["TargetName"]; ss]) show_str
+  (fun ss => x_Function_TargetName (x_Function_mk ss)) (fun ss => Dupes.target_name (to_dupes (x_Function_mk ss))) grid.
+Definition D2 := diffs String.eqb (fun ss => [["ID"]; ss]) show_str
+  (fun ss => x_Function_ID (x_Function_mk ss)) (fun ss => Dupes.fid (to_dupes (x_Function_mk ss))) grid.
+Definition D := Eval vm_compute in firstn 3 (D1 ++ D2)%list.
+""",
+        "args": ["op", "Function"], "replay": "method"},
+    "TargetName/Gen": {
+        "file": "parse/parse.go", "names": _PARSE_NAMES, "src": ["Function.TargetName"],
+        "model": "Model/Gen.target_name (C18)",
+        "requires": "From Mage Require Model.Gen.\n", "defs": _TO_GEN,
+        "theorems": ["x_TargetName_Gen"],
+        "agree": _LESS_GEN_PROOF,
+        "search": _FGRID + """Definition D := Eval vm_compute in firstn 3 (diffs String.eqb (fun ss => [["TargetName"]; ss]) show_str
+  (fun ss => x_Function_TargetName (x_Function_mk ss)) (fun ss => Gen.target_name (to_gen (x_Function_mk ss))) grid).
+""",
+        "args": ["op", "Function"], "replay": "method"},
+    "TargetName/Classify": {
+        "file": "parse/parse.go", "names": _PARSE_NAMES, "src": ["Function.TargetName"],
+        "model": "Model/Classify.targetName (C06; PkgAlias empty)",
+        "requires": "From Mage Require Model.Classify.\n",
+        "defs": """Definition to_classify (f : x_Function) : Classify.function :=
+  {| Classify.f_name := x_Function_Name f; Classify.f_recv := x_Function_Receiver f; Classify.f_iserr := false;
+     Classify.f_isctx := false; Classify.f_args := []; Classify.f_comment := ""; Classify.f_synopsis := "" |}.
+""",
+        "theorems": ["x_TargetName_Classify"],
+        "agree": """Theorem x_TargetName_Classify : forall (f : x_Function) (c : Classify.function),
+  x_Function_PkgAlias f = "" -> x_Function_Receiver f = Classify.f_recv c -> x_Function_Name f = Classify.f_name c ->
+  x_Function_TargetName f = Classify.targetName c.
+Proof.
+  intros f c. unfold x_Function_TargetName, Classify.targetName, strings_Join. go_record f.
+  destruct c; cbn [Classify.f_recv Classify.f_name]. intros -> -> ->. go_auto.
+Qed.
+""",
+        "search": _FGRID + """Definition D := Eval vm_compute in firstn 3 (diffs String.eqb (fun ss => [["TargetName"]; ss]) show_str
+  (fun ss => x_Function_TargetName (x_Function_mk ss)) (fun ss => Classify.targetName (to_classify (x_Function_mk ss)))
+  (filter (fun ss => String.eqb (x_Function_PkgAlias (x_Function_mk ss)) "") grid)).
+""",
+        "args": ["op", "Function"], "replay": "method"},
+    "TargetName/ImportTag": {
+        "file": "parse/parse.go", "names": _PARSE_NAMES, "src": ["Function.TargetName"],
+        "model": "Model/ImportTag.target_name (C19)",
+        "requires": "From Mage Require Model.ImportTag.\n", "defs": _TO_ITAG,
+        "theorems": ["x_TargetName_ImportTag"],
+        "agree": """Theorem x_TargetName_ImportTag : forall f, x_Function_TargetName f = ImportTag.target_name (to_itag f).
+Proof. intros f. unfold x_Function_TargetName, ImportTag.target_name, to_itag, strings_Join, ImportTag.is_empty. go_record f. go_auto. Qed.
+""",
+        "search": _FGRID + """Definition D := Eval vm_compute in firstn 3 (diffs String.eqb (fun ss => [["TargetName"]; ss]) show_str
+  (fun ss => x_Function_TargetName (x_Function_mk ss)) (fun ss => ImportTag.target_name (to_itag (x_Function_mk ss))) grid).
+""",
+        "args": ["op", "Function"], "replay": "method"},
+    "Functions.Less": {
+        "file": "parse/parse.go", "names": _PARSE_NAMES, "src": ["Functions.Less", "Function.TargetName"],
+        "model": "Model/Gen.key_leb Gen.target_name, the order sort_by sorts td_funcs with (strict part)",
+        "requires": "From Mage Require Model.Gen.\n", "defs": _TO_GEN,
+        "theorems": ["x_TargetName_Gen", "x_Functions_Less_Gen"],
+        "agree": _LESS_GEN_PROOF + """Theorem x_Functions_Less_Gen : forall s i j,
+  x_Functions_Less s i j = negb (Gen.key_leb Gen.target_name (to_gen (index_ x_Function_zero s j)) (to_gen (index_ x_Function_zero s i))).
+Proof.
+  intros. unfold x_Functions_Less, Gen.key_leb. rewrite <- ?x_TargetName_Gen. try apply sltb_negb_leb.
+Qed.
+""",
+        "search": """Definition pool := words [""; "a"; "b"] x_Function_arity.
+Definition grid := pairs (pairs pool pool) (pairs [0; 1]%Z [0; 1]%Z).
+Definition D := Eval vm_compute in firstn 3 (diffs Bool.eqb
+  (fun x => [fst (fst x); snd (fst x); [show_Z (fst (snd x))]; [show_Z (snd (snd x))]]) show_bool
+  (fun x => x_Functions_Less [x_Function_mk (fst (fst x)); x_Function_mk (snd (fst x))] (fst (snd x)) (snd (snd x)))
+  (fun x => let s := [x_Function_mk (fst (fst x)); x_Function_mk (snd (fst x))] in
+            negb (Gen.key_leb Gen.target_name (to_gen (index_ x_Function_zero s (snd (snd x)))) (to_gen (index_ x_Function_zero s (fst (snd x))))))
+  grid).
+""",
+        "args": ["Function", "Function", "i", "j"], "replay": "Functions.Less"},
+    "Imports.Less": {
+        "file": "parse/parse.go", "names": _PARSE_NAMES, "src": ["Imports.Less"],
+        "model": "Model/Gen.key_leb Gen.i_uname, the order sort_by sorts td_imports with (strict part)",
+        "requires": "From Mage Require Model.Gen.\n", "defs": _TO_GEN,
+        "theorems": ["x_Imports_Less_Gen"],
+        "agree": """Theorem x_Imports_Less_Gen : forall s i j,
+  x_Imports_Less s i j = negb (Gen.key_leb Gen.i_uname (to_gen_import (index_ x_Import_zero s j)) (to_gen_import (index_ x_Import_zero s i))).
+Proof.
+  intros. unfold x_Imports_Less, Gen.key_leb, to_gen_import; cbn [Gen.i_uname]. try apply sltb_negb_leb.
+Qed.
+""",
+        "search": """Definition pool := words [""; "a"; "b"; "ab"; "B"] x_Import_arity.
+Definition grid := pairs (pairs pool pool) (pairs [0; 1]%Z [0; 1]%Z).
+Definition D := Eval vm_compute in firstn 3 (diffs Bool.eqb
+  (fun x => [fst (fst x); snd (fst x); [show_Z (fst (snd x))]; [show_Z (snd (snd x))]]) show_bool
+  (fun x => x_Imports_Less [x_Import_mk (fst (fst x)); x_Import_mk (snd (fst x))] (fst (snd x)) (snd (snd x)))
+  (fun x => let s := [x_Import_mk (fst (fst x)); x_Import_mk (snd (fst x))] in
+            negb (Gen.key_leb Gen.i_uname (to_gen_import (index_ x_Import_zero s (snd (snd x)))) (to_gen_import (index_ x_Import_zero s (fst (snd x))))))
+  grid).
+""",
+        "args": ["Import", "Import", "i", "j"], "replay": "Imports.Less"},
+    "filter": {
+        "file": "mage/main.go", "names": "filter", "src": ["filter"],
+        "model": "List.filter (String.prefix prefix) list (no hand model: the debug line of mage.RunCompiled)",
+        "requires": "", "defs": "",
+        "theorems": ["x_filter_spec"],
+        "agree": """Theorem x_filter_spec : forall l p, x_filter l p = List.filter (fun s => String.prefix p s) l.
+Proof.
+  intros l p. unfold x_filter. try go_loops. go_norm. unfold strings_HasPrefix. cbn [app].
+  induction l as [|s l IH]; cbn [flat_map filter fold_left]; [reflexivity|].
+  go_cases; go_norm; cbn [app]; rewrite ?IH; try reflexivity; try congruence.
+Qed.
+""",
+        "search": """Definition lists := (words_upto ["ab"; "a"; "b"; ""; "ba"] 2 ++ [["a"; "ab"; "b"; "abc"; ""; "ba"; "a"]])%list.
+Definition grid := pairs lists [""; "a"; "ab"; "b"; "c"].
+Definition D := Eval vm_compute in firstn 3 (diffs (list_eqb String.eqb) (fun x => [fst x; [snd x]]) (fun r => r)
+  (fun x => x_filter (fst x) (snd x)) (fun x => List.filter (fun s => String.prefix (snd x) s) (fst x)) grid).
+""",
+        "args": ["list", "prefix"], "replay": None},
+    "displayName": {
+        "file": "mg/deps.go", "names": "displayName", "src": ["displayName"],
+        "model": "characterisation: \"main.X\" with no further \".\" -> \"X\", anything else unchanged (no hand model)",
+        "requires": "",
+        "defs": """Definition nodot (s : string) : Prop := has_char "."%char s = false.
+Definition displayName_spec (name : string) : string :=
+  match split_char "."%char name with
+  | [a; b] => if String.eqb a "main" then b else name
+  | _ => name
+  end.
+""",
+        "theorems": ["x_displayName_pieces", "x_displayName_main", "x_displayName_other"],
+        "agree": """(* in terms of the pieces strings.Split cuts *)
+Theorem x_displayName_pieces : forall name, x_displayName name = displayName_spec name.
+Proof.
+  intros name. unfold x_displayName, displayName_spec. cbv zeta.
+  change "."%string with (String "."%char EmptyString). rewrite ?strings_Split_char.
+  destruct (split_char "."%char name) as [|a [|b [|c l]]]; try reflexivity;
+    try (cbn; go_cases; reflexivity);
+    try (rewrite !len_cons; pose proof (len_nonneg l); go_cases; try reflexivity; lia).
+Qed.
+Theorem x_displayName_main : forall x, nodot x -> x_displayName ("main." ++ x)%string = x.
+Proof.
+  intros x H. rewrite x_displayName_pieces. unfold displayName_spec.
+  assert (E : split_char "."%char ("main." ++ x)%string = ["main"; x]) by (apply split_char_two; auto).
+  rewrite E. reflexivity.
+Qed.
+Theorem x_displayName_other : forall name, (forall x, nodot x -> name <> ("main." ++ x)%string) -> x_displayName name = name.
+Proof.
+  intros name H. rewrite x_displayName_pieces. unfold displayName_spec.
+  destruct (split_char "."%char name) as [|a [|b [|c l]]] eqn:E; try reflexivity.
+  destruct (String.eqb_spec a "main"); [|reflexivity]. subst a.
+  apply split_char_two in E as (-> & _ & Hb). exfalso. exact (H b Hb eq_refl).
+Qed.
+""",
+        "search": """Definition grid := ["main.X"; "main"; "main."; ".main"; "main.a.b"; "pkg.X"; ""; "X"; "a.main"; "main.main"; "mainX.Y";
+  "github.com/x/y.Z"; "."; ".."; "main.."; "Main.X"; "main.x.y.z"; "x.main.y"; ".X"; "main.Ns.Build"; "main.(T).M"; "a.b"].
+Definition D := Eval vm_compute in firstn 3 (diffs String.eqb (fun x => [[x]]) show_str x_displayName displayName_spec grid).
+""",
+        "args": ["name"], "replay": None},
+}
+
+
+def _coq_term(text):
+    """parse the Coq term Print shows for D (lists, tuples, string literals) into Python lists/tuples/strs"""
+    toks = re.findall(r'"(?:[^"]|"")*"|[\[\]();,]|%\w+', text)
+    pos = [0]
+
+    def item():
+        t = toks[pos[0]]
+        pos[0] += 1
+        if t.startswith('"'):
+            return t[1:-1].replace('""', '"')
+        close, sep = ("]", ";") if t == "[" else (")", ",")
+        out = []
+        while toks[pos[0]] != close:
+            if toks[pos[0]] == sep:
+                pos[0] += 1
+                continue
+            out.append(item())
+        pos[0] += 1
+        return out if t == "[" else tuple(out)
+    toks = [t for t in toks if not t.startswith("%")]
+    return item()
+
+
+def _fn_fields(translated, struct):
+    """names of the string fields of a translated Record, in the order <prefix>T_mk takes them"""
+    m = re.search(r"Record x_%s := \{(.*?)\}\." % struct, translated, re.S)
+    return [n for n, ty in re.findall(r"x_%s_(\w+) : ([^;}]+)" % struct, m.group(1)) if ty.strip() == "string"] if m else []
+
+
+def _fn_input(it, translated, args):
+    """the differing input, readable: argument name -> value"""
+    out = {}
+    for k, (name, val) in enumerate(zip(it["args"], args)):
+        if name in ("Function", "Import"):
+            out["%s#%d" % (name, k)] = dict(zip(_fn_fields(translated, name), val))
+        elif name in ("i", "j"):
+            out[name] = int(val[0])
+        elif name in ("op", "prefix", "name"):
+            out[name] = val[0]
+        else:
+            out[name] = val
+    return out
+
+
+def _fn_replay(ctx, it, inp):
+    """run the differing input on the real code where it is reachable through exported behaviour; None otherwise"""
+    if it["replay"] is None:
+        return None
+    recs = [v for k, v in sorted(inp.items()) if "#" in k]
+    if it["replay"] == "method":
+        req = {"op": inp["op"], "f": recs[0]}
+    elif it["replay"] == "Functions.Less":
+        req = {"op": "Functions.Less", "fs": recs, "i": inp["i"], "j": inp["j"]}
+    elif it["replay"] == "Imports.Less":
+        req = {"op": "Imports.Less", "is": recs, "i": inp["i"], "j": inp["j"]}
+    else:
+        req = {"op": "joinArgs", "a": inp["a"], "b": inp["b"]}
+    try:
+        binp = os.path.join(ctx.tmp, "bin_purefn")
+        if not os.path.exists(binp):
+            go_build_harness(ctx, "purefn", tags=None)
+        rc, out, err = sh([binp], input=json.dumps(req).encode(), timeout=60)
+        ans = json.loads(out)
+        return ans.get("result")
+    except Exception as ex:          # the replay is an extra; the differing input on the translated function stands by itself
+        ctx.log("purefn replay failed: %s" % ex)
+        return None
+
+
+def fn_tie(ctx, names):
+    t0 = time.time()
+    try:
+        _fn_tie(ctx, names)
+    finally:
+        ctx.coverage["fn_tie_wall_s"] = round(ctx.coverage.get("fn_tie_wall_s", 0) + time.time() - t0, 2)
+
+
+def _fn_tie(ctx, names):
+    exb = os.path.join(ctx.tmp, "bin_extract")
+    ex = exb if os.path.exists(exb) else go_build_harness(ctx, "extract", tags=None)
+    cov = ctx.coverage.setdefault("fn_tie", {})
+    jobs = []
+    for n in names:
+        it = FN_ITEMS[n]
+        rc, out, err = sh([ex, "fn", os.path.join(REPO, it["file"]), it["names"], "x_"], timeout=60)
+        if rc != 0:
+            # fail-soft: a refactoring the translator does not understand; the behavioural tie alone decides
+            msg = (err.strip() or "status %d" % rc)[:200]
+            ctx.notes.append("harness/extract could not translate %s (%s); only the behavioural tie applies" % (n, msg))
+            cov[n] = "untranslatable: " + msg
+            continue
+        jobs.append((n, it, out))
+    if not jobs:
+        return
+    need = ["Proof/GoLib_facts", "Run/eval_GoLib"] + sorted({m.replace(".", "/") for _, it, _ in jobs
+                                                             for m in re.findall(r"\b((?:Model|Proof)\.\w+)", it["requires"])})
+    if not all(vo_ok(v) for v in need):
+        ok, log = coq_make(targets=[v + ".vo" for v in need])
+        if not ok:
+            ctx.notes.append("fn_tie: the Coq files the agreement proofs need did not build (%s); only the behavioural tie applies" % log[-300:])
+            for n, _, _ in jobs:
+                cov[n] = "unproved-no-diff"
+            return
+    safe = lambda n: re.sub(r"\W", "_", n)
+
+    def prove(job):
+        n, it, out = job
+        text = FN_HEADER + it["requires"] + out + it["defs"] + it["agree"] + "".join("Print Assumptions %s.\n" % t for t in it["theorems"])
+        return ctx.coq_eval("fntie_%s_%s" % (ctx.pid, safe(n)), text, timeout=120)
+    for (n, it, out), (rc, log) in zip(jobs, pmap(prove, jobs)):
+        ctx.obligations += len(it["theorems"])
+        if rc == 0 and log.count("Closed under the global context") == len(it["theorems"]):
+            ctx.discharged += len(it["theorems"])
+            cov[n] = "proved"
+            ctx.trusted_base.append("harness/extract (Go -> Gallina translator, mode fn) + Base/GoLib.v: %s of %s translated on this run; %s proved for all inputs against %s"
+                                    % (", ".join(it["src"]), it["file"], ", ".join(it["theorems"]), it["model"]))
+            continue
+        ctx.log("agreement proof for %s did not go through:\n%s" % (n, log[-600:]))
+        text = FN_HEADER + it["requires"] + out + it["defs"] + it["search"] + "Definition N := Eval vm_compute in length grid.\nPrint D.\nPrint N.\n"
+        rc2, log2 = ctx.coq_eval("fntie_%s_%s_search" % (ctx.pid, safe(n)), text, timeout=300)
+        mD = re.search(r"D\s*=\s*(.*?)\n\s*:\s", log2, re.S)
+        mN = re.search(r"N\s*=\s*(\d+)", log2)
+        if rc2 != 0 or not mD or not mN:
+            msg = re.sub(r"\s+", " ", log2)[-300:]
+            ctx.notes.append("the translation of %s (or the statement about it) was not accepted by Coq (%s); only the behavioural tie applies" % (n, msg))
+            cov[n] = "untranslatable: rejected by Coq: " + msg[-160:]
+            continue
+        found = _coq_term(re.sub(r"\s+", " ", mD.group(1)))
+        npts = int(mN.group(1))
+        if not found:
+            ctx.notes.append("agreement proof for %s did not go through on this run; no differing input on %d grid points; behavioural tie decides" % (n, npts))
+            cov[n] = "unproved-no-diff"
+            continue
+        args, tres, mres = found[0]
+        inp = _fn_input(it, out, args)
+        go_res = _fn_replay(ctx, it, inp)
+        if go_res is not None and go_res == mres and go_res != tres:
+            # the real function agrees with the model and not with its translation: a translator fault, not a finding
+            ctx.notes.append("harness/extract mistranslates %s: on %s the code returns %s, the translation %s; translation ignored, behavioural tie decides" % (n, inp, go_res, tres))
+            cov[n] = "untranslatable: translator disagrees with the code"
+            continue
+        src = {}
+        for f in it["src"]:
+            rc3, s, _ = sh([ex, "src", os.path.join(REPO, it["file"]), f])
+            src[f] = s if rc3 == 0 else None
+        cov[n] = "differs"
+        what = {"kind": "translated-function-differs",
+                "theorem": "%s (%s %s, translated, against %s)" % (", ".join(it["theorems"]), it["file"], n, it["model"]),
+                "translated": out, "differs_on": [{"input": _fn_input(it, out, a), "translated_result": t, "model_result": m} for a, t, m in found],
+                "go_source": src, "input": inp, "translated_result": tres, "model_result": mres, "log": log[-600:]}
+        if go_res is not None:
+            what["go_result"] = go_res          # the real function called through its exported surface (harness/purefn)
+            what["go_agrees_with_translation"] = (go_res == tres)
+        else:
+            what["note"] = "the function is not exported; the translated function is the code (its text is in go_source)"
+        ctx.violation(what, found_input=True)
